@@ -214,6 +214,15 @@ def gen_cases(tier):
                 if a < g and b < g:
                     add("add", "modulus", [A, B, hx(le32(g))], ("data", le32((a + b) % g)))
                     add("sub", "modulus:a>=b" if a >= b else "modulus:a<b", [A, B, hx(le32(g))], ("data", le32((a - b) % g)))
+    # operands at or above the modulus, small moduli: the mathematical definition is (a +- b) mod g for any a, b
+    small = [0, 1, 5, 16, 17, 18, 40, 255, 256, 1000, (1 << 128) + 3, (1 << 256) - 1]
+    for a in small:
+        for b in small:
+            for g in (7, 17, 18, 256, (1 << 128) + 1):
+                if a < g and b < g:
+                    continue
+                add("add", "modulus-unreduced-operand", [hx(le32(a)), hx(le32(b)), hx(le32(g))], ("data", le32((a + b) % g)))
+                add("sub", "modulus-unreduced-operand", [hx(le32(a)), hx(le32(b)), hx(le32(g))], ("data", le32((a - b) % g)))
     add("add", "one-argument", [enc(5, 17)], ("reject",))
     add("sub", "one-argument", [enc(5, 17)], ("reject",))
     add("add", "four-arguments", [enc(5, 17)] * 4, ("reject",))
